@@ -11,6 +11,7 @@ import (
 	"sync"
 	"time"
 
+	"mellium.im/xmlstream"
 	"mellium.im/xmpp"
 	"mellium.im/xmpp/stanza"
 
@@ -465,4 +466,144 @@ func (c *ctxT) multiSession(rnd *common.Rand, caseNo int) {
 			}
 		}
 	}
+}
+
+// ---- round 4: both spellings of namespaces below a replaced start element ---------------------
+
+// spellingCorpus: EncodeElement (on the session and from a handler) with values that produce
+// their own tokens, whose children are in namespaces of their own written either in the name
+// (resolved) or as an xmlns attribute on a name without namespace (raw); the wire is judged by
+// the resolved (space, local) of every element.
+func (c *ctxT) spellingCorpus(cfg cfgT) {
+	raw := func(ns, local string, attrs []xml.Attr, children ...xml.Token) []xml.Token {
+		return el("", local, append([]xml.Attr{{Name: xml.Name{Local: "xmlns"}, Value: ns}}, attrs...), children...)
+	}
+	item := el("", "item", at("jid", "a@example.net"), el("", "group", nil, xml.CharData("friends"))...)
+	values := [][]xml.Token{
+		// <x><query xmlns=roster><item><group/></item></query></x>, query resolved / raw
+		el("", "x", nil, el("jabber:iq:roster", "query", at("ver", "1"), item...)...),
+		el("", "x", nil, raw("jabber:iq:roster", "query", at("ver", "1"), item...)...),
+		// raw root, raw grandchild in yet another namespace
+		raw("urn:a", "outer", nil, append(raw("urn:b", "inner", nil, el("", "leaf", nil)...), el("urn:c", "other", nil, raw("urn:d", "deep", nil)...)...)...),
+		// a forwarded stanza spelled raw inside a resolved wrapper
+		el("urn:xmpp:forward:0", "forwarded", nil, raw(nsClient, "message", at("type", "chat"), el("", "body", nil, xml.CharData("hi"))...)...),
+	}
+	starts := []xml.StartElement{
+		{Name: xml.Name{Local: "iq"}, Attr: at("type", "result", "id", "sp1")},
+		{Name: xml.Name{Space: nsClient, Local: "message"}, Attr: at("to", "b@example.com")},
+		{Name: xml.Name{Space: "urn:wrap", Local: "w"}},
+	}
+	for _, v := range values {
+		for i := range starts {
+			st := starts[i]
+			for _, f := range forms {
+				c.one(cfg, call{entry: "encel", form: f, toks: v, start: &st}, "spelling")
+				c.one(cfg, call{entry: "replyel", form: f, toks: v, start: &st}, "spelling")
+			}
+			c.one(cfg, call{entry: "sendel", form: "reader", toks: v, start: &st}, "spelling")
+		}
+		c.one(cfg, call{entry: "enc", form: "marshaler", toks: v}, "spelling")
+		c.one(cfg, call{entry: "reply", form: "reader", toks: v}, "spelling")
+	}
+}
+
+// ---- round 4: the session's own default reply against a sender parked inside its element ------
+
+type gatedReader struct {
+	t       []xml.Token
+	i, k    int
+	reached chan struct{}
+	gate    chan struct{}
+}
+
+func (g *gatedReader) Token() (xml.Token, error) {
+	if g.i >= len(g.t) {
+		return nil, errEOF
+	}
+	if g.i == g.k {
+		select {
+		case g.reached <- struct{}{}:
+		default:
+		}
+		<-g.gate
+	}
+	t := g.t[g.i]
+	g.i++
+	return xml.CopyToken(t), nil
+}
+
+// autoReply: a Send is parked in the middle of its element (its token reader waits); a get IQ
+// that no handler answers arrives, so Serve writes the default service-unavailable reply.  The
+// reply has to wait for the sender: the wire must be the sender's whole element, then the reply.
+func (c *ctxT) autoReply(cfg cfgT) {
+	r := c.r
+	r.Mark("case auto-reply")
+	lines := []string{"#scenario=auto-reply"}
+	rs, err := newSess(cfg)
+	if err != nil {
+		return
+	}
+	defer rs.In.Close()
+	handled := make(chan struct{}, 4)
+	go rs.S.Serve(xmpp.HandlerFunc(func(t xmlstream.TokenReadEncoder, start *xml.StartElement) error {
+		handled <- struct{}{}
+		return nil
+	}))
+	msg := el("", "message", at("id", "parked", "type", "chat"), el("", "body", nil, xml.CharData("first half"), xml.CharData(" second half"))...)
+	gr := &gatedReader{t: msg, k: 3, reached: make(chan struct{}, 1), gate: make(chan struct{})}
+	var sendErr error
+	done := make(chan struct{})
+	go func() { defer close(done); sendErr = rs.S.Send(context.Background(), gr) }()
+	fail := func(detail string) {
+		r.Fail("atomic", "auto-reply", lines, detail)
+		r.Line("conc 2 -", "bad")
+	}
+	select {
+	case <-gr.reached:
+	case <-time.After(3 * time.Second):
+		close(gr.gate)
+		fail("the sender did not reach the middle of its element")
+		return
+	}
+	go rs.Feed([]byte(`<iq xmlns="` + cfg.ns + `" type="get" id="auto1"><ping xmlns="urn:xmpp:ping"/></iq>`))
+	select {
+	case <-handled:
+	case <-time.After(3 * time.Second):
+	}
+	time.Sleep(60 * time.Millisecond) // the default reply is due now; it must wait for the sender
+	early := rs.Out.Bytes()
+	close(gr.gate)
+	<-done
+	go rs.Feed([]byte(`<message xmlns="` + cfg.ns + `" id="sync"/>`))
+	select {
+	case <-handled:
+	case <-time.After(3 * time.Second):
+	}
+	r.Case("auto-reply "+cfg.ns, true, "auto-reply")
+	if sendErr != nil {
+		fail("the parked Send returned " + sendErr.Error())
+		return
+	}
+	wire := rs.Out.Bytes()
+	toks, perr := parseInStream(cfg.ns, wire)
+	if perr != nil {
+		fail(fmt.Sprintf("wire not well-formed (%v): %q (while the sender was parked: %q)", perr, clip(wire), clip(early)))
+		return
+	}
+	masked, _ := maskIDs(toks)
+	els, stray := splitTop(masked)
+	if stray || len(els) != 2 {
+		fail(fmt.Sprintf("%d top-level elements, expected the sender's element and the reply: %q", len(els), clip(wire)))
+		return
+	}
+	exp, _ := expected(cfg.ns, cfg.from, msg)
+	if same, why := sameElement(els[0], exp); !same {
+		fail(fmt.Sprintf("the first element is not the sender's element (%s): %q; on the wire while the sender was parked: %q", why, clip(wire), clip(early)))
+		return
+	}
+	if s0, ok := els[1][0].(xml.StartElement); !ok || s0.Name.Local != "iq" {
+		fail(fmt.Sprintf("the second element is not the reply: %q", clip(wire)))
+		return
+	}
+	r.Line("conc 2 0,1", "ok")
 }
